@@ -239,6 +239,17 @@ WITNESS_CASES = [
      "`atoms 1 2 x 3` is accepted as the list (1, 2)"),
     ("strict:vector:surplus-entries-dropped", "PF 1 N1:%s %s" % (G.hx("centers"), G.hx("centers 1 2 3\n")), "reject",
      "`centers 1 2 3` is accepted for a single value (surplus entries dropped)"),
+    # the witnesses of C09_bool_value_strict (first-word rule refuted), on the real get_keyval<bool>
+    ("strict:value:junk-word-after-bool-value-accepted", "PF 1 B:%s %s" % (G.hx("outputAppliedForce"), G.hx("outputAppliedForce on junk\n")), "reject",
+     "`outputAppliedForce on junk` is accepted (text after the first word of a boolean value is ignored)"),
+    ("strict:value:keyword-and-value-after-bool-value-accepted", "PF 1 B:%s,B:%s %s" % (G.hx("outputValue"), G.hx("outputAppliedForce"), G.hx("outputValue off outputAppliedForce on\n")), "reject",
+     "`outputValue off outputAppliedForce on` is accepted (the second flag is silently dropped)"),
+    ("strict:value:second-value-after-bool-value-accepted", "PF 1 B:%s %s" % (G.hx("flag"), G.hx("flag off on\n")), "reject",
+     "`flag off on` is accepted as off"),
+    ("strict:value:bool-spelling", "PF 1 B:%s %s" % (G.hx("flag"), G.hx("flag {\n on\n}\n")), "reject",
+     "a boolean value in braces over several lines (value text `\\n on\\n`) is accepted; the model (whole-text comparison) refuses it"),
+    ("strict:value:bool-spelling", "PF 1 B:%s %s" % (G.hx("flag"), G.hx("flag { on }\n")), "accept 1",
+     "`flag { on }` is refused"),
 ]
 ISOLATION_WITNESSES = [
     ("KL %s %s 0" % (G.hx("colvarx"), G.hx("colvar")), "notfound", "key_lookup(\"colvarx\", \"colvar\") finds the keyword although an x follows it"),
@@ -250,6 +261,12 @@ def flat_oracle(meta, impl):
     """demands of the property text on the implementation alone, for tagged flat cases; returns (sig, text) or None"""
     tag = meta["tag"]
     acc = impl.startswith("accept")
+    if tag.startswith("trailing:"):
+        if acc and meta["must_reject"]:
+            return ("strict:value:%s-after-%s-value-accepted" % (tag[len("trailing:"):], {"B": "bool", "I": "int", "R": "real", "S": "string", "U": "size_t", "L": "long",
+                    "V": "real-list", "J": "int-list", "N": "fixed-list", "T": "tuple", "Y": "tuple-list", "W": "string-list"}[meta["vkind"][0]]),
+                    "the configuration %r is accepted: the text after the value of the %s keyword is silently dropped" % (meta["conf"], meta["vkind"]))
+        return None
     if acc and tag != "bytes":
         firsts = [l.strip(b" \t").lower().split()[:1] for l in meta["conf"].split(b"\n")]
         for it in meta["schema"].split(","):
@@ -288,6 +305,18 @@ def value_oracle(meta, impl):
                         "keyword %r (%s): value text %r accepted as %s" % (key, "size_t" if kind == "U" else "long", t, v))
             if int(t) != int(v):
                 return ("value:integer", "keyword %r: value text %r read as %s" % (key, t, v))
+            continue
+        if kind == "B":
+            # the value text of the keyword's line must be exactly one of the six spellings (or absent: the flag alone)
+            cand = [l for l in lines if l.strip(b" \t").lower().split()[:1] == [key.lower()]]
+            if v == "-" or len(cand) != 1 or b"{" in conf or b"}" in conf or b"#" in conf or b"\r" in conf:
+                continue
+            t = cand[0].strip(b" \t")[len(key):].strip(b" \t")
+            want = {b"": "1", b"on": "1", b"yes": "1", b"true": "1", b"off": "0", b"no": "0", b"false": "0"}.get(t)
+            if want is None:
+                return ("strict:value:bool-spelling", "keyword %r (bool): value text %r accepted as %s" % (key, t, v))
+            if want != v:
+                return ("value:bool", "keyword %r: value text %r read as %s" % (key, t, v))
             continue
         if kind not in ("R", "I", "V") and kind[0] not in "NT":
             continue
@@ -526,6 +555,14 @@ MODULE_WITNESSES = [
     ("ok", 4, "units real\n" + DZ % ("atomNumbers 1", "0.25"), True, "reference (units real)"),
     ("ok", 4, "UNITS Real\n" + DZ % ("atomNumbers 1", "0.25"), True, "reference (units, letter case)"),
     ("strict:module:unknown-units-accepted", 4, "units furlongs\n" + DZ % ("atomNumbers 1", "0.25"), False, "`units furlongs` is accepted"),
+    # text after a complete BOOLEAN value (a junk word, a second flag with its value)
+    ("strict:module:junk-word-after-bool-value-accepted", 4, (DZ % ("atomNumbers 1", "0.25")).replace("  width 0.5\n", "  width 0.5\n  outputAppliedForce on junk\n"), False,
+     "`outputAppliedForce on junk`"),
+    ("strict:module:keyword-and-value-after-bool-value-accepted", 4, (DZ % ("atomNumbers 1", "0.25")).replace("  width 0.5\n", "  width 0.5\n  outputValue off outputAppliedForce on\n"), False,
+     "two flags on one line: `outputValue off outputAppliedForce on`"),
+    ("strict:module:junk-word-after-bool-value-accepted", 4, (DZ % ("atomNumbers 1", "0.25")).replace("  forceConstant 4.0\n", "  forceConstant 4.0\n  outputEnergy yes please\n"), False,
+     "`outputEnergy yes please` in a bias block"),
+    ("ok", 4, (DZ % ("atomNumbers 1", "0.25")).replace("  width 0.5\n", "  width 0.5\n  outputAppliedForce { on }\n"), True, "reference (`outputAppliedForce { on }`)"),
     # text that is neither a keyword nor a value must be an error, wherever it is on the line
     ("strict:module:text-after-brace-accepted", 4, (DZ % ("atomNumbers 1", "0.25")).replace("      atomNumbers 1\n    }", "      atomNumbers 1\n    } junk"), False,
      "`} junk` after the closing brace of an atom group"),
@@ -1093,6 +1130,9 @@ def check(run):
                                   "data": b"", "delim": b""}))
     ncorpus = len(cases)
     cases += gen_unit_cases(r, 2500 if quick else 60000, tc)
+    # text after a complete value, for EVERY value kind and family (deterministic coverage, every run)
+    for sch, cconf, kd, fam, must in G.gen_trailing_cases(r):
+        cases.append(("PF 1 %s %s" % (sch, G.hx(cconf)), {"kind": "PF", "tag": "trailing:" + fam, "schema": sch, "conf": cconf, "vkind": kd, "must_reject": must}))
     lines = [c for c, _ in cases]
     rc1, impl, e1 = V.run_lines(unit, lines, timeout=900, cwd=V.scratch("C09unit"))
     rc2, mod, e2 = V.run_lines(model, lines, timeout=1800)
@@ -1188,7 +1228,7 @@ def check(run):
             elif not io.endswith(" empty"):
                 bad = ("sequence:registry-not-empty", "the parser object's registry is not empty after a sequence of read_config_string calls (%s)" % meta["tags"])
         elif kind == "NP":
-            if meta["tag"] in ("misspelt", "wrong-level", "unknown-keyword", "brace", "junk-after-brace", "junk-before-brace") and io == "accept":
+            if meta["tag"] in ("misspelt", "wrong-level", "unknown-keyword", "brace", "junk-after-brace", "junk-before-brace", "trailing-text") and io == "accept":
                 bad = ("strict:nested:%s-accepted" % meta["tag"], "a nested configuration with a %s mutation is accepted: %r" % (meta["tag"], meta["conf"]))
             elif meta["tag"] == "valid" and io != "accept":
                 bad = ("layout:nested:valid-refused", "a valid nested configuration (random layout) is refused: %r" % meta["conf"])
@@ -1214,7 +1254,7 @@ def check(run):
     for (sig, c, want, text), io, mo in zip(WITNESS_CASES, wi, wm):
         run.count(c, True)
         if not io.startswith(want):
-            run.violation(sig, text + " [witness of C09_pinned_scalar_rule_refuted / C09_pinned_vector_rules_refuted]", {"kind": "unit", "case": c, "impl": io, "model": mo})
+            run.violation(sig, text + " [witness of C09_pinned_scalar_rule_refuted / C09_pinned_vector_rules_refuted / C09_bool_value_strict]", {"kind": "unit", "case": c, "impl": io, "model": mo})
         if io != mo:
             run.mismatch("unit:strict:pinned-lenient-rule", c, io, mo)
     il = [c for c, _, _ in ISOLATION_WITNESSES]
